@@ -87,7 +87,8 @@ def st_case():
                 if draw(st.integers(0, 3)) == 0:
                     spec.append(['kwargs', VK, None])
                 funcs.append(spec)
-            return {'what': 'combination', 'funcs': funcs, 'nest': draw(st.booleans())}
+            return {'what': 'combination', 'funcs': funcs, 'nest': draw(st.booleans()),
+                    'forwarders': [draw(st.integers(0, 3)) == 0 for _ in range(k)]}
         depth = draw(st.integers(1, 3)) if draw(st.booleans()) else 1
         decos = [draw(deco(i)) for i in range(depth)]
         spec = draw(universe.st_spec(FNAMES, max_named=3, p_star=0.2))
@@ -131,8 +132,12 @@ def render(case):
         for i, spec in enumerate(case['funcs']):
             sp = tuple(Par(*p) for p in spec)
             loc = ', '.join('%r: %s' % (p.name, p.name) for p in sp[1:])
-            src += 'def f%d(%s):\n    if RAISE[0] and %d == %d:\n        raise UserErr(%d)\n    return (%s, %d, {%s})\n' % (
-                i, universe.spec_text(sp), i, len(case['funcs']) - 1, i, sp[0].name, i, loc)
+            fwd = (case.get('forwarders') or [False] * len(case['funcs']))[i]
+            src += 'def %sf%d(%s):\n    if RAISE[0] and %d == %d:\n        raise UserErr(%d)\n    return (%s, %d, {%s})\n' % (
+                '_g' if fwd else '', i, universe.spec_text(sp), i, len(case['funcs']) - 1, i, sp[0].name, i, loc)
+            if fwd:
+                # a member whose effective signature comes from forwarding its star parameters
+                src += 'def f%d(%s, *args, **kwargs):\n    return _gf%d(%s, *args, **kwargs)\n' % (i, sp[0].name, i, sp[0].name)
         names = ['f%d' % i for i in range(len(case['funcs']))]
         if case['nest'] and len(names) >= 2:
             src += 'TARGET = wrappers.Combination(wrappers.Combination(%s), %s)\n' % (', '.join(names[:-1]), names[-1])
